@@ -31,6 +31,88 @@ class LibCalls:
         raise machine_error(f"inner RUN {name} has no contract here")
 
 
+class HavocCalls:
+    """inner RUNs of device procedures: the variables in the listed output positions receive an arbitrary value, the same
+    one for the same (callee, call number, position) in every run, so that two runs of one procedure can be compared"""
+
+    OUT = {"gfx": {"joystk": (2, 3, 4)}, "_ecb_get_point_info": (2, 3, 4)}
+
+    def __init__(self, sem):
+        self.sem = sem
+
+    def b09_run(self, m, st, name, args):
+        n = name.lower()
+        spec = self.OUT.get(n)
+        if isinstance(spec, dict):
+            key = args[0][1].lower() if args and args[0][0] == "str" else None
+            spec = spec.get(key)
+        if spec is None:
+            raise machine_error(f"inner RUN {name} has no havoc contract here")
+        st.devcount += 1
+        for pos in spec:
+            a = args[pos]
+            if a[0] not in ("var", "idx"):
+                raise machine_error(f"inner RUN {name}: output position {pos} is not a variable")
+            kind = m.kind_of_name(a[1])
+            hv = self.sem.const(f"havoc_{n}_{st.devcount}_{pos}", kind)
+            if kind == "n":
+                # the device procedures return INTEGER readings
+                st.cond += [hv == z3.ToReal(z3.ToInt(hv)), hv >= -32768, hv <= 32767]
+            m.assign(st, a, (kind, hv))
+
+
+def check_alias_equivalence(ctx, lib, procname, keep, gone, premises, label):
+    """the procedure called with ONE variable for the parameters `keep` (an argument) and `gone` (the result) leaves in it
+    what the ordinary call leaves in the result parameter - for all arguments and all device readings (havoc)"""
+    from vf.tv import machine
+
+    proc = lib[procname]
+    ctx.encode(f"ecb.b09 procedure {procname}", "\n".join(proc.lines))
+    found = {}
+    for reading in ("trunc", "round"):  # how LAND turns its REAL operands into integers: decided under both readings
+        old = machine.Sem.int_conversion
+        machine.Sem.int_conversion = reading
+        try:
+            runs = {}
+            for alias in (False, True):
+                pr = c20.aliased(proc, keep, gone) if alias else proc
+                sem = machine.Sem("real")
+                m = machine.Machine(c20.load(pr), sem, init_mode="symbolic", interp_strings=True, for_semantics="pretest", refmap=HavocCalls(sem))
+                st0 = machine.initial_state()
+                consts = {}
+                for name, dims, tname, slen in pr.params:
+                    consts[name.lower()] = sem.const("init_" + name.upper(), {"string": "s"}.get(tname, "n"))
+                st0.cond = list(premises(consts))
+                leaves = m.run(st0, 120)
+                runs[alias] = [(lf, c20.final(lf, m, keep if alias else gone)) for lf in leaves]
+            bad = None
+            for la, oa in runs[False]:
+                for lb, ob in runs[True]:
+                    ctx.stats["obligations"] += 1
+                    if la.status != lb.status:
+                        v, mdl = smt.check(list(la.cond) + list(lb.cond), 20000, True)
+                        what = f"ordinary call ends with {la.status}, shared-variable call with {lb.status}"
+                    elif la.status == "error":
+                        ctx.stats["identity"] += 1  # both raise the error: no result to compare
+                        continue
+                    else:
+                        v, mdl = smt.check(list(la.cond) + list(lb.cond) + [oa != ob], 20000, True)
+                        what = "results differ"
+                    ctx.stats[v] += 1
+                    if v == "sat" and bad is None:
+                        bad = (what, {str(d): str(mdl[d]) for d in mdl.decls() if str(d).startswith(("init_", "havoc_"))}, str(mdl.eval(oa, True)), str(mdl.eval(ob, True)))
+                    elif v == "unknown":
+                        ctx.note_inconclusive(f"{procname} alias equivalence ({reading})")
+                        bad = bad or "unknown"
+            found[reading] = bad
+            ctx.sample({"procedure": procname, "obligation": f"{label}: same result with {keep} and {gone} in one variable", "land_operands": reading, "paths": [len(runs[False]), len(runs[True])], "counterexample": bad})
+        finally:
+            machine.Sem.int_conversion = old
+    if all(isinstance(b, tuple) for b in found.values()):
+        bad = found["trunc"]
+        ctx.violation(f"{procname}:result-variable-is-an-argument:{keep}", f"{label} (emitted as RUN {procname}(.., V, .., V)): {bad[0]}; ordinary call gives {bad[2]}, the call the tool emits gives {bad[3]} for {bad[1]} (under both readings of LAND's operand conversion)", {"witness": bad[1]})
+
+
 def machine_error(msg):
     from vf.core import HarnessError
 
